@@ -81,6 +81,9 @@ impl vstd::std_specs::convert::FromSpecImpl<AnchorErrorCode> for UnifiedError {
     open spec fn from_spec(v: AnchorErrorCode) -> Self { UnifiedError::Anchor(v) }
 }
 impl From<AnchorErrorCode> for UnifiedError { fn from(e: AnchorErrorCode) -> (r: Self) { UnifiedError::Anchor(e) } }
+//@ assume the `?` operator converts a whirlpool ErrorCode into UnifiedError with From::from
+#[verifier::external_body]
+pub broadcast proof fn ax_qmark_pino(e: WhirlpoolErrorCode, r: UnifiedError) requires #[trigger] vstd::std_specs::control_flow::spec_from::<UnifiedError, WhirlpoolErrorCode>(e, r) ensures r == UnifiedError::Whirlpool(e) {}
 
 pub struct AccountInfo { pub k: Pubkey, pub signer: bool, pub writable: bool }
 impl AccountInfo {
